@@ -936,7 +936,8 @@ namespace avel {
         auto should_offset = abs(frac) >= vec8x32f{0.5f};
         auto ret = whole + keep(should_offset, offset);
 
-        return ret;
+        // whole + 0.0 is +0.0 for a negative zero, so restore the sign of the argument
+        return copysign(ret, v);
     }
 
     [[nodiscard]]
